@@ -689,3 +689,64 @@ _run_c01b = run
 def run(ctx, R):
     _run_c01b(ctx, R)
     r18(ctx, R)
+
+
+def r19(ctx, R):
+    """Every consumer a multi-consumer request names reaches the write, and
+    with it the capacity check: in create_allocation_list each entry of the
+    body either yields new Allocation objects (one per provider and class it
+    names) or - when its allocations are empty - the consumer's current ones
+    zeroed; nothing else decides whether an entry is looked at (an entry
+    skipped as "unchanged" is not checked against an inventory the same
+    request shrinks)."""
+    prog = ctx.prog
+    f = prog.func('placement.handlers.allocation:create_allocation_list')
+    rets = [r for r in own_nodes(f.node) if isinstance(r, ast.Return)
+            and isinstance(r.value, ast.Name)]
+    ok = len(rets) == 1
+    why = []
+    n = 0
+    if ok:
+        res = rets[0].value.id
+        loops = [lp for lp in own_nodes(f.node) if isinstance(lp, ast.For)
+                 and src(lp.iter).split('.')[0] == f.params[1]
+                 and not C.guarding_ifs(lp, f.node)]
+        ok = len(loops) == 1
+        if ok:
+            lp = loops[0]
+            fills = [c for c in own_nodes_of(lp) if isinstance(c, ast.Call)
+                     and isinstance(c.func, ast.Attribute) and c.func.attr in
+                     ('extend', 'append') and src(c.func.value) == res]
+            ok = len(fills) >= 2
+            # the entry's own allocations: a local read from the body entry
+            deps = C.Deps(f)
+            for c in fills:
+                n += 1
+                for e, pol in C.skip_conds(C.stmt_of(c), lp):
+                    e2 = C.inline_locals(f, e)
+                    plain = isinstance(e2, (ast.Subscript, ast.Name)) and \
+                        "'allocations'" in src(e2) or (
+                            isinstance(e, ast.Name) and deps.reaches(
+                                e, lambda x: isinstance(x, ast.Constant)
+                                and x.value == 'allocations') and isinstance(
+                                    e2, (ast.Subscript, ast.Name)))
+                    if not plain:
+                        ok = False
+                        why.append('%s under %s%s' % (
+                            src(c.func), '' if pol else 'not ', src(e)[:50]))
+            if any(isinstance(x, ast.Break) for x in own_nodes_of(lp)):
+                ok = False
+                why.append('the loop over the entries can be left early')
+    R.ob('R1.9', 'create_allocation_list:every-entry-reaches-the-write', ok,
+         'each consumer entry yields Allocation objects under no other '
+         'condition than whether its own allocations are empty',
+         why[:3] or '%d fills' % n, func=f)
+    R.count('R1.9', n, 2)
+
+
+_run_c01c = run
+
+
+def run(ctx, R):
+    _run_c01c(ctx, R)
+    r19(ctx, R)
